@@ -48,3 +48,16 @@ template void frg::destruct_n<wit::Elem, wit::Alloc>(wit::Alloc &, wit::Elem *, 
 
 template class frg::tuple<int, wit::Elem>;
 template class frg::tuple<int &, wit::Elem &>;
+template int &frg::tuple<int, wit::Elem>::get<0>();
+template wit::Elem &frg::tuple<int, wit::Elem>::get<1>();
+template const int &frg::tuple<int, wit::Elem>::get<0>() const;
+template const wit::Elem &frg::tuple<int, wit::Elem>::get<1>() const;
+template int &frg::tuple<int &, wit::Elem &>::get<0>();
+template wit::Elem &frg::tuple<int &, wit::Elem &>::get<1>();
+template class frg::tuple<int, wit::Elem, long>;
+template long &frg::tuple<int, wit::Elem, long>::get<2>();
+namespace wit { inline void use_tuple(frg::tuple<int, char> a, frg::tuple<long> b) {
+	auto c = frg::tuple_cat(std::move(a), std::move(b));
+	(void)frg::apply([](int, char, long) { return 0; }, std::move(c));
+	(void)frg::make_tuple(1, 2);
+} }
